@@ -152,6 +152,108 @@ def perturb(rng, c, system, kind):
     return replace_at(c, p, nice_cat(rng, system, 0 if isinstance(s, Functor) else rng.choice([1, 2])))
 
 
+# ---- structural perturbations of ONE occurrence of a variable's binding (stream 'shared-*') ----------------------
+def flatten(c):
+    """the atoms and the slashes of c from left to right (what remains of c when the brackets are forgotten)"""
+    if isinstance(c, Atom):
+        return [c], []
+    la, ls = flatten(c.left)
+    ra, rs = flatten(c.right)
+    return la + ra, ls + [c.slash] + rs
+
+
+def with_shape(rng, atoms_, slashes):
+    """a category with exactly these atoms and slashes from left to right, nested at random"""
+    if len(atoms_) == 1:
+        return atoms_[0]
+    k = rng.randrange(len(slashes))
+    return Functor(with_shape(rng, atoms_[:k + 1], slashes[:k]), slashes[k], with_shape(rng, atoms_[k + 1:], slashes[k + 1:]))
+
+
+def shaped_cat(rng, system, n, atom=None):
+    """a category with exactly n atoms, every nesting possible"""
+    atom = atom or nice_atom
+    return with_shape(rng, [atom(rng, system) for _ in range(n)], [rng.choice(SL[:2] if rng.random() < 0.93 else SL) for _ in range(n - 1)])
+
+
+def rotations(c):
+    """every category obtained from c by moving ONE pair of brackets: (A s B) t C <-> A s (B t C) at one node"""
+    out = []
+    for p, s in subterms(c):
+        if isinstance(s, Functor):
+            if isinstance(s.left, Functor):
+                out.append(replace_at(c, p, Functor(s.left.left, s.left.slash, Functor(s.left.right, s.slash, s.right))))
+            if isinstance(s.right, Functor):
+                out.append(replace_at(c, p, Functor(Functor(s.left, s.slash, s.right.left), s.right.slash, s.right.right)))
+    return out
+
+
+STRUCT_KINDS = ['rebracket', 'rebracket', 'rotate', 'rotate', 'flip', 'base', 'addarg', 'droparg', 'same']
+
+
+def struct_perturb(rng, c, system, kind):
+    """another category that differs from c in its STRUCTURE in one specific way (features are left where they are);
+    None when c is too small for this kind.  Whether a match must then fail is not decided here: the oracle / the model judge."""
+    subs = list(subterms(c))
+    fs = [(p, f) for p, f in subs if isinstance(f, Functor)]
+    if kind == 'same':
+        return c
+    if kind == 'rebracket':         # same atoms and slashes left to right, any other nesting
+        at, sl = flatten(c)
+        if len(at) < 3:
+            return None
+        for _ in range(20):
+            d = with_shape(rng, at, sl)
+            if skel(d) != skel(c):
+                return d
+        return None
+    if kind == 'rotate':            # one pair of brackets moved
+        rs = rotations(c)
+        return rng.choice(rs) if rs else None
+    if kind == 'flip':              # one slash replaced
+        if not fs:
+            return None
+        p, f = rng.choice(fs)
+        other = [s for s in SL[:2] if s != f.slash] if rng.random() < 0.85 else [s for s in SL if s != f.slash]
+        return replace_at(c, p, Functor(f.left, rng.choice(other), f.right))
+    if kind == 'base':              # one atom renamed (its feature stays)
+        atoms_ = [(p, a) for p, a in subs if isinstance(a, Atom)]
+        p, a = rng.choice(atoms_)
+        names = ['S', 'NP'] if system == 'ja' and rng.random() < 0.7 else ['S', 'N', 'NP', 'PP']
+        return replace_at(c, p, Atom(rng.choice([b for b in names if b != a.base]), a.feature))
+    if kind == 'addarg':            # one more argument: on the outside, or on one sub-category
+        p, s = rng.choice(subs) if rng.random() < 0.6 else ((), c)
+        extra = nice_atom(rng, system)
+        new = Functor(s, rng.choice(SL[:2]), extra) if rng.random() < 0.7 else Functor(extra, rng.choice(SL[:2]), s)
+        return replace_at(c, p, new)
+    if kind == 'droparg':           # one argument (or one result) removed
+        if not fs:
+            return None
+        p, f = rng.choice(fs)
+        return replace_at(c, p, f.left if rng.random() < 0.7 else f.right)
+    raise ValueError(kind)
+
+
+def occurrences(ppx, ppy):
+    """[(variable, side, leaf number)] of the two patterns"""
+    return [(v, 0, i) for i, v in enumerate(pattern_names(ppx))] + [(v, 1, i) for i, v in enumerate(pattern_names(ppy))]
+
+
+def build_occ(rng, p, side, envd, special, counter=None):
+    """the pattern with every variable replaced by its binding; the occurrence `special` = (variable, side, leaf number, category)
+    gets its own category; a '|' of the pattern (it matches any slash) becomes any slash"""
+    counter = counter if counter is not None else [0]
+    if isinstance(p, Atom):
+        i = counter[0]
+        counter[0] += 1
+        if special is not None and (p.base, side, i) == special[:3]:
+            return special[3]
+        return envd[p.base]
+    l = build_occ(rng, p.left, side, envd, special, counter)
+    r = build_occ(rng, p.right, side, envd, special, counter)
+    return Functor(l, p.slash if p.slash != '|' else rng.choice(SL), r)
+
+
 def mix_systems(rng, c):
     """replace some leaf features by features of the other system"""
     if isinstance(c, Atom):
@@ -494,6 +596,46 @@ def make_cases(ctx, n_total):
         if rng.random() < 0.3:
             x, y = build(ppx, envy), build(ppy, envx)
         add('xconf', px, py, x, y)
+    # separate stream (on top of the budget): ONE occurrence of a variable that occurs twice (mostly: once in each pattern) is bound to a
+    # STRUCTURAL variant of what the other occurrences are bound to - re-bracketed (same atoms and slashes from left to right, other
+    # nesting), one pair of brackets moved, one slash flipped, one atom renamed, one argument added / removed - or to the same category
+    # (control).  The leaf features are mostly left as they are, so that nothing but the structure can decide; both feature systems.
+    n_struct, tries = int(budget * 0.2), 0
+    made = 0
+    while made < n_struct and tries < 20 * n_struct:
+        tries += 1
+        if rng.random() < 0.7:
+            lang, px, py = rng.choice(gpairs)
+            src = 'g'
+        else:
+            nv = rng.randint(1, 3)
+            px, py = str(rand_pattern(rng, nv, rng.randint(0, 2))), str(rand_pattern(rng, nv, rng.randint(0, 2)))
+            src = 'r'
+        ppx, ppy = Category.parse(px), Category.parse(py)
+        occ = occurrences(ppx, ppy)
+        nx, ny = pattern_names(ppx), pattern_names(ppy)
+        shared = sorted({v for v in nx if v in ny})
+        twice = sorted({v for v, _, _ in occ if sum(1 for o in occ if o[0] == v) >= 2})
+        if not twice:
+            continue
+        v = rng.choice(shared) if shared and rng.random() < 0.85 else rng.choice(twice)
+        system = rng.choice(['en', 'ja'])
+        kind = STRUCT_KINDS[made % len(STRUCT_KINDS)] if rng.random() < 0.8 else rng.choice(STRUCT_KINDS)
+        size = {'rebracket': [3, 3, 4, 4, 5], 'rotate': [3, 3, 4, 5], 'flip': [2, 3, 3, 4], 'droparg': [2, 3, 3, 4]}.get(kind, [1, 2, 3, 4])
+        atom = nice_atom if rng.random() < 0.7 else (lambda r, s: deep_cat(s, 0))          # random features incl. absent / variable, or concrete ones only
+        envd = {w: shaped_cat(rng, system, rng.choice([1, 1, 2, 3]), atom) for w in set(nx + ny)}
+        envd[v] = shaped_cat(rng, system, rng.choice(size), atom)
+        c2 = struct_perturb(rng, envd[v], system, kind)
+        if c2 is None:
+            continue
+        r = rng.random()
+        if r >= 0.55:
+            c2 = refeature(rng, c2, system, friendly=r < 0.85)
+        which = rng.choice([o for o in occ if o[0] == v])
+        special = which + (c2,)
+        x, y = build_occ(rng, ppx, 0, envd, special), build_occ(rng, ppy, 1, envd, special)
+        add(f'shared-{kind}:{system}:{src}', px, py, x, y)
+        made += 1
     rng.shuffle(cases)
     # fixed corpus (run first): the suite's own examples, boundary cases, and the order-dependent outcomes of mixed systems
     head, cases[:] = list(cases), []
@@ -513,6 +655,9 @@ CORPUS = [
     ('a', 'b', 'S/NP', '(S\\NP)/NP'),
     # agreement (also inside one pattern; the last binding is the one kept)
     ('a/a', 'b', 'S[b]/S[dcl]', 'N'), ('a/a', 'b', 'S/NP', 'N'), ('a/b', 'b', 'S/(NP/N)', 'NP'), ('a/b', 'b', 'S/NP', 'NP/N'), ('(a/b)/a', 'a', '(S[X]/N)/S[b]', 'S[dcl]'),
+    # agreement is about the nesting too: the same atoms and slashes from left to right, bracketed differently, are different sub-categories
+    ('a/b', 'b', 'S/((S\\NP)/NP)', 'S\\(NP/NP)'), ('a/b', 'b', 'S/((S\\NP)/NP)', '(S\\NP)/NP'), ('a/a', 'b', '((S/NP)/NP)/(S/(NP/NP))', 'N'),
+    ('b', 'a\\b', f'({JA1}\\{JA1})\\{JA1}', f'{JA1}\\({JA1}\\({JA1}\\{JA1}))'),
     # features: nb, absent, X, clash, one variable feature meeting two values
     ('a/b', 'b', 'NP[nb]/N', 'N[nb]'), ('a/b', 'b', 'S/NP[nb]', 'NP[conj]'), ('a/b', 'b', 'S/NP', 'NP[conj]'), ('a/b', 'b', 'S/NP[dcl]', 'NP[b]'),
     ('a/b', 'b', 'S/NP[dcl]', 'NP[X]'), ('a/b', 'b', 'S[X]/(NP[X]/N[X])', 'NP[dcl]/N[b]'), ('a/b', 'b', 'S[X]/(NP[dcl]/N[b])', 'NP[X]/N[X]'),
@@ -596,6 +741,8 @@ def run(ctx):
         ctx.count('answer:' + (str(flag[1]) if flag[0] == 'ok' else flag[1]))
         exp = expected(c['ppx'], c['ppy'], c['x'], c['y'])
         ctx.count('oracle:' + exp['why'])
+        if c['kind'].startswith('shared-'):
+            ctx.count(f"{c['kind'].split(':')[0]}:{c['kind'].split(':')[1]}:oracle:{exp['why']}")
         key = (c['px'], c['py'], str(c['x']), str(c['y']))
         ctx.case(key, nontrivial=exp['why'] in ('match', 'feature', 'agree', 'mixed'))
         allp = obs['pre'] + obs['reads'] + [flag, obs['second']]
@@ -653,7 +800,9 @@ def run(ctx):
              'and one unbound name, second call); patterns: every Unification(...) pair of grammar/en.py and ja.py plus random patterns with <= 5 '
              'variables incl. repeated ones; inputs: the patterns instantiated with random categories (both feature systems) and then perturbed '
              '(feature / slash / base / structure), random pairs, a mixed-feature-system stream, a stream where one variable feature meets several '
-             'values; each case is compared with the Coq model (ucall/uread/unify/uget and the specification matchesb) and judged by the independent '
+             'values, a stream where one occurrence of a variable that occurs twice is bound to a structural variant of the binding of the other '
+             'occurrences (re-bracketed with the same atoms and slashes from left to right, one pair of brackets moved, one slash flipped, one atom '
+             'renamed, one argument added / removed, or unchanged), features mostly untouched, both feature systems; each case is compared with the Coq model (ucall/uread/unify/uget and the specification matchesb) and judged by the independent '
              'oracle; a sample is re-run under PYTHONHASHSEED 0..3; non-trivial = the answer is decided after the shape test; distinct by (patterns, x, y)',
         assumptions=['pattern variables are single letters (so that the f"{v}{index}" keys of the code are an injective image of (variable, leaf index))',
                      'after an AttributeError inside the matching loop (mixed feature systems only) the Python object keeps success=True and its '
